@@ -1064,6 +1064,11 @@ impl<T: ArrayValue> Array<T> {
                 }
                 self.shape.remove(depth);
                 self.data.truncate(self.shape.elements());
+                // The first rows of the rows of sorted rows are sorted,
+                // but deeper than that the order is not kept
+                if depth > 1 {
+                    self.meta.take_sorted_flags();
+                }
                 self.validate();
                 Ok(self)
             }
